@@ -105,6 +105,24 @@ impl Spec {
     pub fn lax(n: usize, e: usize, k: usize, lw: usize, lx: usize, a: usize, b: usize, q: usize) -> Spec {
         Spec { n_min: 0, n_max: n, e_min: 0, e_max: e, ks: k, kt: k, lw, lx, a, b, q }
     }
+    /// Complete universes that together stand in for "at most 3 nodes, at most 2 hyperedges of arity <= 2, two node
+    /// and two hyperedge labels", which is too large to enumerate (1.5*10^8 diagrams with interfaces <= 2): everything
+    /// with at most one hyperedge; everything on at most two nodes; and, for exactly three nodes and two hyperedges,
+    /// one label per sort with full arities, and both labels with unary hyperedges. `full_3x2` adds all of "3 nodes,
+    /// 2 hyperedges, all labels" with interfaces of length <= 1. Each member is enumerated completely.
+    pub fn family_3x2(ifc: usize, q: usize, full_3x2: bool) -> Vec<Spec> {
+        let base = Spec { n_min: 0, n_max: 3, e_min: 0, e_max: 2, ks: 2, kt: 2, lw: 2, lx: 2, a: ifc, b: ifc, q };
+        let mut v = vec![
+            Spec { e_max: 1, ..base },
+            Spec { n_max: 2, ..base },
+            Spec { n_min: 3, e_min: 2, lw: 1, lx: 1, ..base },
+            Spec { n_min: 3, e_min: 2, ks: 1, kt: 1, ..base },
+        ];
+        if full_3x2 {
+            v.push(Spec { n_min: 3, e_min: 2, a: 1, b: 1, ..base });
+        }
+        v
+    }
     pub fn name(&self) -> String {
         format!(
             "n{}..{}e{}..{}k{}/{}L{}/{}if{}/{}q{}",
